@@ -141,6 +141,14 @@ func genOverlapping(rnd *rand.Rand, m int, pattern string, maxPer int) [][]uint3
 	return sets
 }
 
+// maybeHistory picks a path history for one table in 1 of n builds.
+func maybeHistory(rnd *rand.Rand, n int) string {
+	if rnd.Intn(n) != 0 {
+		return ""
+	}
+	return pathHistories[rnd.Intn(len(pathHistories))]
+}
+
 func maxInt(a, b int) int {
 	if a > b {
 		return a
@@ -201,7 +209,7 @@ func runMergeCase(cc *caseCtx) {
 	cc.guard("C15/panic-in-builder", func() {
 		for i := range inputs {
 			_, _, ok := buildTableFile(cc, storeDir, int64(10+i), inputs[i],
-				writeOpts{mode: writeModes[rnd.Intn(len(writeModes))], prefix: fmt.Sprintf("merge input %d", i)})
+				writeOpts{mode: writeModes[rnd.Intn(len(writeModes))], prefix: fmt.Sprintf("merge input %d", i), history: maybeHistory(rnd, 6)})
 			okBuild = okBuild && ok
 		}
 	})
